@@ -4,8 +4,8 @@ From Coq Require Import List ZArith NArith Bool Sorting.Permutation.
 From Pcfg Require Import Str Multiword Detect Segment SegCorr DetectProofsStr DetectProofsDrive DetectProofsSimple
      DetectProofsMw DetectProofsSeg DetectProofsWeb DetectProofsKbd DetectProofsCount DetectProofsAdj DetectProofsPipe DetectProofsInst.
 From Pcfg Require Import DetectRt DetectGenProofs DetectGenInst.
-From Pcfg Require Import DetectRt2 DetectGenProofsMw DetectGenProofsEmail DetectGenProofsWeb DetectGenInst2.
-From PcfgGen Require Import Consts_gen Unicode_gen Detect_gen DetectMw_gen DetectEmail_gen DetectWeb_gen.
+From Pcfg Require Import DetectRt2 DetectGenProofsMw DetectGenProofsEmail DetectGenProofsWeb DetectGenProofsKbd DetectGenInst2.
+From PcfgGen Require Import Consts_gen Unicode_gen Detect_gen DetectMw_gen DetectEmail_gen DetectWeb_gen DetectKbd_gen.
 Import ListNotations.
 Open Scope Z_scope.
 
@@ -413,6 +413,68 @@ Example C05_source_email_web_demo :
           [Some [114; 111; 99; 107; 121; 111; 117; 46; 99; 111; 109]%N], [Some [119; 119; 119; 46]%N]).
 Proof. exact demo_py_email_web. Qed.
 
+(* The keyboard-walk detector.  The Python code keeps dicts from the NAME of a layout to
+   a key's (row, position) / to the last step of a run; the model one entry per layout by
+   position.  dict_of names l / sel names flags are the dicts that represent such lists
+   for layouts with pairwise different names.  For every oracle: *)
+Theorem C05_source_find_keyboard_row_column_is_model : forall c kbds,
+  NoDup (map b_name kbds) -> Forall board_ok kbds ->
+  py_find_keyboard_row_column c kbds = Some (dict_of (map b_name kbds) (pos_list (map b_rows kbds) c)).
+Proof. exact py_find_keyboard_row_column_eq. Qed.
+(* the layouts on which the two keys are neighbours (the values of the returned dict are never read) *)
+Theorem C05_source_is_next_on_keyboard_is_model : forall names past cur, NoDup names ->
+  exists d, py_is_next_on_keyboard (dict_of names past) (dict_of names cur) = Some d /\
+            d_keys d = sel names (next_on past cur).
+Proof. exact py_is_next_on_keyboard_eq. Qed.
+Theorem C05_source_interesting_keyboard_is_model : forall isalpha isdigit lower_c combo,
+  py_interesting_keyboard isalpha isdigit lower_c combo =
+  interesting isalpha isdigit lower_c kb_false_positive_words combo.
+Proof. exact py_interesting_keyboard_eq. Qed.
+(* detect_keyboard_walk with the default min_keyboard_run, for EVERY fuel (the translated
+   recursion runs out of fuel S n exactly when the model's runs out of n); kw_view forgets
+   the third result (detected_keyboards), which the parser does not use *)
+Theorem C05_source_detect_keyboard_walk_is_model : forall isalpha isdigit lower_c fuel pw,
+  kw_view (py_detect_keyboard_walk isalpha isdigit lower_c (S fuel) pw 4) =
+  detect_keyboard_walk isalpha isdigit lower_c py_kbs kb_false_positive_words 4 fuel pw.
+Proof. exact py_detect_keyboard_walk_eq. Qed.
+(* the layouts read off the dict literals of the source are the extracted rows *)
+Theorem C05_side_translated_layouts : py_kbs = c_kbs /\ c_min_run = 4 /\ NoDup (map b_name py_keyboards).
+Proof. exact (conj side_py_kbs (conj side_min_run_4 py_keyboards_names_differ)). Qed.
+Theorem keyboard_split_ok_source : forall pw, pw <> [] ->
+  exists sl f dk, py_keyboard_walk_c pw = Some (sl, f, dk) /\ tiles c_pm pw sl /\ Forall c_sound sl.
+Proof. exact py_keyboard_split_ok. Qed.
+
+(* ---- PCFGPasswordParser.parse over the translated detect_keyboard_walk, email_detection,
+   website_detection and MultiWordDetector.parse: no detector is a model parameter any more *)
+Theorem C05_source_parse_is_model_ext : forall isalpha isdigit isupper lower_c kbs fp_words min_run tlds thr minl maxl m
+    (mwp : str -> option (bool * list str)) (kw : str -> option (list section))
+    (em web : list section -> option (list section)) pw,
+  (forall x, mwp x = mwparse lower_c thr minl maxl m x) ->
+  kw pw = model_keyboard_walk isalpha isdigit lower_c kbs fp_words min_run pw ->
+  (forall sl, em sl = model_email_detection lower_c tlds sl) ->
+  (forall sl, web sl = model_website_detection isalpha lower_c tlds sl) ->
+  py_parse isalpha isdigit isupper lower_c mwp kw em web pw =
+  parse_view (parse isalpha isdigit isupper lower_c true kbs fp_words min_run tlds year_prefixes context_strings
+                    thr minl maxl m pw).
+Proof. exact py_parse_eq_ext. Qed.
+Theorem C05_source_parse_full_is_model : forall t m pw, mw_rep t m -> py_parse_full_c t pw = parse_view (parse_c m pw).
+Proof. exact py_parse_full_c_is_model. Qed.
+Theorem C05_tiling_source_full : forall t pw, mw_reachable t -> pw <> [] ->
+  exists sl ys cs al ms ds os, py_parse_full_c t pw = Some (sl, ys, cs, al, ms, ds, os) /\
+    tiles c_pm pw sl /\ Forall c_sound sl /\ Forall (fun y => snd y <> None) sl.
+Proof. exact py_parse_full_c_tiling. Qed.
+Theorem C05_never_raises_source_full : forall t pw, mw_reachable t -> pw <> [] -> py_parse_full_c t pw <> None.
+Proof. exact py_parse_full_c_never_raises. Qed.
+Example C05_source_full_demo :
+  py_parse_full_c t_empty w_demo =
+  Some ([([49; 113; 97; 122]%N, Some (LK 4)); ([50; 48; 49; 57]%N, Some LY); ([35; 49]%N, Some LX);
+         ([112; 97; 115; 115]%N, Some (LA 4)); ([33]%N, Some (LO 1))],
+        [[50; 48; 49; 57]%N], [[35; 49]%N], [[112; 97; 115; 115]%N], [[76; 76; 76; 76]%N], [], [[33]%N]) /\
+  py_keyboard_walk_c [116; 101; 115; 116; 49; 113; 97; 122; 116; 101; 115; 116]%N =
+  Some ([([116; 101; 115; 116]%N, None); ([49; 113; 97; 122]%N, Some (LK 4)); ([116; 101; 115; 116]%N, None)],
+        [[49; 113; 97; 122]%N], [[113; 119; 101; 114; 116; 121]%N]).
+Proof. exact demo_py_parse_full. Qed.
+
 Print Assumptions split_driver_tiling.
 Print Assumptions C05_tiling.
 Print Assumptions C05_counters.
@@ -429,3 +491,7 @@ Print Assumptions C05_sound_multiword_source.
 Print Assumptions C05_source_detect_website_is_model.
 Print Assumptions website_split_ok_source.
 Print Assumptions email_split_ok_source.
+Print Assumptions C05_source_detect_keyboard_walk_is_model.
+Print Assumptions keyboard_split_ok_source.
+Print Assumptions C05_source_parse_full_is_model.
+Print Assumptions C05_tiling_source_full.
